@@ -42,6 +42,16 @@ class OrderedSymExec(SymExec):
             p.effects.append(Effect("cond", sub, p.epoch, lineno, (key, outcome)))  # type: ignore[arg-type]
         super()._log(p, orig, sub, lineno)
 
+    def _test(self, p: Path, t: ast.AST, lineno: int, orig: ast.AST) -> list[tuple[Path, bool]]:
+        # `a <= k < b` is decided as `a <= k and k < b` (the shared operand is a substituted pure term here)
+        if isinstance(t, ast.Compare) and len(t.ops) > 1:
+            parts, left = [], t.left
+            for op, right in zip(t.ops, t.comparators):
+                parts.append(ast.copy_location(ast.Compare(left=left, ops=[op], comparators=[right]), t))
+                left = right
+            t = ast.copy_location(ast.BoolOp(op=ast.And(), values=parts), t)
+        return super()._test(p, t, lineno, orig)
+
     def stmt(self, p: Path, s: ast.stmt) -> list[tuple[Path, str]]:
         if isinstance(s, (ast.For, ast.AsyncFor, ast.While)):
             env = dict(p.env)
